@@ -11,6 +11,7 @@ import (
 	"encoding/binary"
 	"fmt"
 	"io"
+	"net"
 	"os"
 	"path/filepath"
 	"runtime"
@@ -22,6 +23,7 @@ import (
 	"github.com/named-data/ndnd/fw/face"
 	"github.com/named-data/ndnd/fw/fw"
 	enc "github.com/named-data/ndnd/std/encoding"
+	appface "github.com/named-data/ndnd/std/engine/face"
 	"github.com/named-data/ndnd/std/ndn"
 	spec "github.com/named-data/ndnd/std/ndn/spec_2022"
 	"github.com/named-data/ndnd/std/utils"
@@ -137,7 +139,7 @@ func recvCases() []recvCase {
 		walkAll(v, 0, 0, &sp)
 		for _, s := range sp {
 			vlen := uint64(s.end - s.start - s.hdr)
-			for _, l := range []uint64{0, 1, 252, 253, 8800, 8801, 65535, 65536, 1 << 31, 1 << 32, 1 << 47, 1 << 63, ^uint64(0), vlen - 1, vlen + 1} {
+			for _, l := range []uint64{0, 1, 252, 253, 8800, 8801, 65535, 65536, 1 << 31, 1 << 32, 1 << 47, 1 << 63, ^uint64(0), ^uint64(0) - 1, ^uint64(0) - 3, ^uint64(0) - 11, ^uint64(0) - 12, ^uint64(0) - 15, vlen - 1, vlen + 1} {
 				if l == vlen {
 					continue
 				}
@@ -149,6 +151,12 @@ func recvCases() []recvCase {
 				if t != s.typ {
 					out = append(out, recvCase{"type", append(append(append([]byte{}, v[:s.start]...), varnum(t)...), v[n1:]...)})
 				}
+			}
+		}
+		for _, s := range sp {
+			for _, l := range []uint64{0, 1, 8801, 1 << 32, 1 << 63, ^uint64(0), ^uint64(0) - 1, ^uint64(0) - 11, ^uint64(0) - 12} {
+				h := append(varnum(900), varnum(l)...)
+				out = append(out, recvCase{"unknown", append(append(append([]byte{}, v[:s.start]...), h...), v[s.start:]...)})
 			}
 		}
 		for i, s := range sp {
@@ -211,6 +219,32 @@ func TestC04Recv(t *testing.T) {
 		got = nil
 		m0, s0, _ := face.VerifStoreSize(rx)
 		decodable := false
+		if streamMode { // a stream is a sequence of frames: the "undecodable frame changes nothing" rule is per frame
+			decodable = true
+		}
+		a0 := memTotal()
+		t0 := time.Now()
+		outcome, detail := "ok", ""
+		fin := make(chan struct{})
+		go func() {
+			defer close(fin)
+			defer func() {
+				if r := recover(); r != nil {
+					outcome, detail = "PANIC", fmt.Sprint(r)
+				}
+			}()
+			call()
+		}()
+		select {
+		case <-fin:
+		case <-time.After(6 * time.Second): // the call cannot be stopped from inside: record it and let the driver resume after it
+			w.Emit(map[string]any{"ev": "frame", "i": idx, "class": class, "outcome": "SPIN", "decodable": true, "threads": []int{}, "store0": m0, "store1": m0,
+				"slots0": s0, "slots1": s0, "alloc": 0, "len": len(input), "input": fmt.Sprintf("%x", input[:min(len(input), 96)])})
+			w.w.Flush()
+			os.Exit(7)
+		}
+		alloc := memTotal() - a0
+		if outcome == "ok" && !streamMode { // classify the input with the packet reader (it returned above, so this returns too)
 		func() {
 			defer func() { recover() }()
 			p, _, err := spec.ReadPacket(enc.NewBufferReader(append([]byte(nil), input...)))
@@ -221,21 +255,7 @@ func TestC04Recv(t *testing.T) {
 			}
 			decodable = err == nil
 		}()
-		if streamMode { // a stream is a sequence of frames: the "undecodable frame changes nothing" rule is per frame
-			decodable = true
 		}
-		a0 := memTotal()
-		t0 := time.Now()
-		outcome, detail := "ok", ""
-		func() {
-			defer func() {
-				if r := recover(); r != nil {
-					outcome, detail = "PANIC", fmt.Sprint(r)
-				}
-			}()
-			call()
-		}()
-		alloc := memTotal() - a0
 		if outcome == "ok" && alloc > uint64(64*len(input))+(1<<20) {
 			outcome, detail = "OVERALLOC", fmt.Sprint(alloc)
 		}
@@ -265,6 +285,30 @@ func TestC04Recv(t *testing.T) {
 		streamMode = true
 		run("stream", stream, func() {
 			face.VerifReadTlvStream(&chunkReader{b: stream, n: 1 + k%977}, func(fr []byte) { face.VerifHandleFrame(rx, fr) })
+		})
+	}
+	// the application-side stream face (std/engine/face): block headers announcing boundary and huge lengths
+	streamMode = true
+	for _, l := range []uint64{0, 1, 8800, 8801, 65536, 1 << 31, 1 << 32, 1 << 40, 1 << 63, ^uint64(0), ^uint64(0) - 12} {
+		input := append(append(varnum(6), varnum(l)...), 1, 2, 3, 4)
+		run("stream", input, func() {
+			a, b := net.Pipe()
+			f := appface.NewVerifStreamFace(b)
+			f.SetCallback(func(r enc.ParseReader) error { return nil }, func(err error) error { return err })
+			done := make(chan any, 1)
+			go func() {
+				defer func() { done <- recover() }()
+				f.Run()
+			}()
+			go func() { a.Write(input); a.Close() }()
+			select {
+			case r := <-done:
+				if r != nil {
+					panic(r)
+				}
+			case <-time.After(3 * time.Second):
+				panic("reader did not return")
+			}
 		})
 	}
 	w.Emit(map[string]any{"ev": "done", "cases": idx})
